@@ -312,6 +312,8 @@ pub struct CaseResult {
     pub hash: u64,
     pub notes: Vec<(String, String)>,
     pub configs: u64,
+    /// how many entries of the raw vector the case asked for
+    pub consumed: usize,
 }
 
 pub fn exec_case(sc: &SubCheck, raw: &[u32], record: bool) -> CaseResult {
@@ -342,7 +344,8 @@ pub fn exec_case(sc: &SubCheck, raw: &[u32], record: bool) -> CaseResult {
     } else {
         outcome
     };
-    CaseResult { outcome, hash, notes: d.take_notes(), configs }
+    let consumed = d.consumed();
+    CaseResult { outcome, hash, notes: d.take_notes(), configs, consumed }
 }
 
 // ------------------------------------------------------------------------------------------------
@@ -421,6 +424,8 @@ pub struct SubReport {
     pub known_hits: BTreeMap<String, u64>,
     pub failure: Option<Failure>,
     pub wall_s: f64,
+    /// the largest number of raw entries any passing case consumed (to be read against the declared vector length)
+    pub max_consumed: usize,
 }
 
 fn fnv(s: &str) -> u64 {
@@ -501,6 +506,7 @@ pub fn run_subcheck(
                     let mut rep = rep.borrow_mut();
                     rep.evaluations += 1;
                     rep.configs += r.configs;
+                    rep.max_consumed = rep.max_consumed.max(r.consumed);
                     *rep.classes.entry(class.to_string()).or_insert(0) += 1;
                     if nontrivial {
                         rep.nontrivial.insert(r.hash);
@@ -572,6 +578,7 @@ impl SubReport {
     pub fn merge(&mut self, other: SubReport) {
         self.evaluations += other.evaluations;
         self.configs += other.configs;
+        self.max_consumed = self.max_consumed.max(other.max_consumed);
         for (k, v) in other.discards {
             *self.discards.entry(k).or_insert(0) += v;
         }
